@@ -70,6 +70,7 @@ def gen_case(rng, tier, idx):
             [6, {"a": "limit", "side": "any", "ref": "p0", "mult": mult, "allow_zero": True, "vol": [1, 5], "ttl": [None, 2, 5],
                  "offgrid": rng.choice([0.0, 0.5])}],
             [3, {"a": "limit", "side": "any", "off": [-4, 4], "vol": [1, 5], "ttl": [None, 3]}],
+            [2, {"a": "limit", "side": "any", "ref": "p0", "mult": mult, "vol": [1, 4], "ttl": [None, 3], "as_int": True}],
             [1, {"a": "market", "side": "any", "vol": [1, 3], "ttl": [None, 2]}],
             [1, {"a": "cancel", "which": "any"}],
         ]
